@@ -27,5 +27,7 @@ try:
 finally:
     subprocess.run(["git", "-C", "/repo", "checkout", "--", "."], check=True)
     subprocess.run(["git", "-C", "/repo", "clean", "-fdq", "--", "zz_demo*", "caddy/zz_demo*"], check=False)
+# the binaries under .build were built from the changed tree: rebuild them from the restored one
+subprocess.run([os.path.join(ROOT, "tools/build.sh")], capture_output=True)
 subprocess.run([os.path.join(ROOT, ".build/extract"), os.path.join(ROOT, "lean/Mercure/Generated/Facts.lean"), os.path.join(ROOT, ".build/facts.json"), "/repo"], capture_output=True)
 json.dump(res, open(os.path.join(d, "result.json"), "w"), indent=1)
